@@ -162,9 +162,9 @@ func c05Sources(r *Run) []shapes.Src {
 		return []shapes.Src{*r.Replay.Src}
 	}
 	if !r.Thorough() {
-		return append(shapes.EnumSrcs(4, 3), shapes.UniformSrcs(2)...)
+		return append(append(shapes.EnumSrcs(4, 3), shapes.UniformSrcs(2)...), shapes.ReuseSrcs(3)...)
 	}
-	srcs := append(shapes.EnumSrcs(5, 3), shapes.UniformSrcs(3)...)
+	srcs := append(append(shapes.EnumSrcs(5, 3), shapes.UniformSrcs(3)...), shapes.ReuseSrcs(4)...)
 	for i, f := range randomForests(2000, 6, 8, 3, 20261003) {
 		sig := shapes.Sig(f)
 		off := shapes.SigOffset(sig, 8)
